@@ -50,9 +50,13 @@ func verifC12Busy(g string) bool {
 
 // c12Quiesce returns once every goroutine but the caller is blocked.
 func VerifC12Quiesce() bool {
-	deadline := time.Now().Add(10 * time.Second)
+	deadline := time.Now().Add(60 * time.Second) // a ceiling for livelock only: reported as stuck, never as an empty observation
 	for i := 0; ; i++ {
 		runtime.Gosched()
+		if i == 0 {
+			runtime.Gosched() // let what was just woken run before the first (costly) dump
+			runtime.Gosched()
+		}
 		busy := false
 		for _, g := range VerifC12Goroutines()[1:] {
 			if verifC12Busy(g) {
